@@ -209,6 +209,141 @@ def exposure(ctx):
     return nscan
 
 
+# ---- labels of the real collectors' series under scripted per-client database behaviours ---------------------
+LH_OVERLAY = dict(T.OVERLAY)
+LH_OVERLAY["zz_verif_labelhist_test.go"] = os.path.join(vlib.HARNESS, "overlay", "prometheus", "zz_verif_labelhist_test.go")
+LH_FAMILIES = ["opened", "closed", "bytes", "udp", "tt"]
+LH_NAMES = {"opened": "tcp_connections_opened", "closed": "tcp_connections_closed", "bytes": "data_bytes_per_location",
+            "udp": "udp_packets_from_client_per_location", "tt": "tunnel_time_seconds_per_location"}
+
+
+def lh_generate(ctx, num, seed, **consts):
+    cfg = T.cfg_with("Gen_LocationLabelHist.cfg", **consts)
+    r = vlib.tlc(ctx, "LocationLabelHistGen", "Gen_LocationLabelHistRun.cfg", simulate=num, depth=120, seed=seed,
+                 deadlock=False, timeout=600, extra_files={"Gen_LocationLabelHistRun.cfg": cfg})
+    behs, seen = [], set()
+    for b in r.behaviours:
+        k = json.dumps(b, sort_keys=True)
+        if k not in seen:
+            seen.add(k)
+            behs.append(b)
+    return behs
+
+
+def lh_run(ctx, behs, tag="lh"):
+    d = ctx.sub(tag)
+    inp, outp = os.path.join(d, "in.json"), os.path.join(d, "out.ndjson")
+    steps = [[{k: v for k, v in st.items() if k in ("a", "c", "ip", "key", "m", "dbm", "enabled")} for st in b] for b in behs]
+    json.dump({"behaviours": steps}, open(inp, "w"))
+    rc, out = vlib.go_overlay_test(ctx, "prometheus", LH_OVERLAY, "^TestVerifLabelHistory$", timeout=600,
+                                   env_extra={"VERIF_LH_IN": inp, "VERIF_LH_OUT": outp})
+    if vlib.compile_failed(out):
+        raise vlib.Inconclusive("label-history overlay does not compile against the working tree:\n" + out[-3000:])
+    rows = vlib.read_ndjson(outp) if os.path.exists(outp) else []
+    if rc != 0 or "HARNESS-ERROR" in out or not rows or rows[-1].get("ev") != "Done":
+        raise vlib.Inconclusive("label-history overlay failed (rc=%d):\n%s" % (rc, out[-3000:]))
+    return rows
+
+
+def lh_events(behs, rows):
+    """Merges what the model says each step feeds (want: lookups stamped with the database behaviour in force at the
+    lookup) with what the real exposition showed (got) into LabelSet/Consulted events for LocationLabelTrace."""
+    events, index = [], []
+    resets = {r["beh"]: r for r in rows if r.get("ev") == "Reset"}
+    steps = {(r["beh"], r["i"]): r for r in rows if r.get("ev") == "Step"}
+    for bi, b in enumerate(behs):
+        rs = resets.get(bi)
+        if rs is None:
+            raise vlib.Inconclusive("label-history: behaviour %d not executed" % bi)
+        cls, cc = rs["cls"], rs["cc"]
+        for si, st in enumerate(b[1:], start=1):
+            ob = steps.get((bi, si))
+            if ob is None or ob["a"] != st["a"]:
+                raise vlib.Inconclusive("label-history: step %d of behaviour %d not recorded" % (si, bi))
+            for fam in LH_FAMILIES:
+                want = [{"cls": cls[w["ip"] - 1], "db": w["db"], "cc": cc[w["ip"] - 1]} for w in st[fam]]
+                got = list(ob["got"].get(fam, []))
+                mode = st["ttmode"] if fam == "tt" else "eq"
+                if not want and not got:
+                    continue
+                events.append({"ev": "LabelSet", "family": fam, "mode": mode, "want": want, "got": got})
+                index.append((bi, si, fam))
+            calls = [cls[i - 1] if 1 <= i <= len(cls) else "nonip" for i in ob.get("dbcalls") or []]
+            if calls:
+                events.append({"ev": "Consulted", "cls": calls, "enabled": bool(rs["enabled"])})
+                index.append((bi, si, "consulted"))
+    return events, index
+
+
+def lh_judge(ctx, behs, rows, desc):
+    events, index = lh_events(behs, rows)
+    tf = os.path.join(ctx.scratch, "lh-trace-%d.ndjson" % len(os.listdir(ctx.scratch)))
+    vlib.write_ndjson(tf, events)
+    ok, r = vlib.validate_traces(ctx, "LocationLabelTrace", "LocationLabelTrace.cfg", tf, timeout=900)
+    res = _result(r)
+    if res is None or res["lines"] != len(events) or not ok:
+        raise vlib.Inconclusive("LocationLabelTrace did not consume the label-history trace: %s %s" % (
+            r.violated or "", "\n".join(r.out.splitlines()[-15:])))
+    bad = {}
+    for v in res["viols"]:
+        bi, si, fam = index[v["line"] - 1]
+        bad.setdefault(bi, []).append((si, fam, v["kind"], events[v["line"] - 1]))
+    reported = set()
+    for bi in sorted(bad, key=lambda b: (min(x[0] for x in bad[b]), b)):
+        si, fam, kind, ev = min(bad[bi])
+        sig = {"module": "metrics", "kind": kind, "family": LH_NAMES.get(fam, fam)}
+        k = json.dumps(sig, sort_keys=True)
+        if k in reported:
+            continue
+        reported.add(k)
+        hist = " ; ".join("%s(%s)" % (s["a"], ",".join(str(s[x]) for x in ("c", "ip", "key", "m") if s.get(x))) for s in behs[bi][1:si + 1])
+        ctx.violation(sig,
+                      "location labels of the real collectors: step %d of a scripted history fed %s with label(s) %s but the "
+                      "table gives %s for the lookup(s) %s (class, database behaviour in force at that lookup); history: %s" % (
+                          si, LH_NAMES.get(fam, fam), ev.get("got"),
+                          "exactly" if ev.get("mode") == "eq" else "a subset of", json.dumps(ev.get("want") or ev.get("cls")),
+                          hist[-700:]),
+                      {"kind": "labelhist", "behaviour": behs[bi], "step": si, "event": ev})
+    return len(events), len(behs) - len(bad), res
+
+
+def label_histories(ctx):
+    quick = ctx.quick
+    n = 60 if quick else 600
+    behs = lh_generate(ctx, n, ctx.seed + 3) + lh_generate(ctx, n // 2, ctx.seed + 4, NI=2, NK=1, MaxConn=8, MaxOps=30) \
+        + lh_generate(ctx, max(4, n // 10), ctx.seed + 5, DbEnabled=False)
+    if len(behs) < n // 2:
+        raise vlib.Inconclusive("label-history generation produced only %d behaviours" % len(behs))
+    # the antecedent must be there: a client looked up again after an erroring lookup (same or changed behaviour)
+    def relook(b):
+        err_ips, hit = set(), False
+        dbm = list(b[0]["dbm"])
+        for st in b[1:]:
+            if st["a"] == "SetDb":
+                dbm[st["ip"] - 1] = st["m"]
+            if st["a"] in ("Open", "NatAdd", "Auth") and st.get("ip"):
+                if st["ip"] in err_ips:
+                    hit = True
+                if dbm[st["ip"] - 1] == "error":
+                    err_ips.add(st["ip"])
+        return hit
+    nre = sum(1 for b in behs if b[0]["enabled"] and relook(b))
+    if nre < 5:
+        raise vlib.Inconclusive("label histories are vacuous: only %d look a client up again after a database error" % nre)
+    r = vlib.tlc(ctx, "LocationLabelHist", "MC_LocationLabelHist.cfg", workers="auto", timeout=900, deadlock=False)
+    ctx.add_tlc(r, "lookup model of the collectors (which call looks up, which series it feeds): structure invariants")
+    if not r.ok:
+        raise vlib.Inconclusive("model finding in LocationLabelHist.tla: %s" % r.violated)
+    rows = lh_run(ctx, behs)
+    nev, nok, res = lh_judge(ctx, behs, rows, "label histories")
+    ctx.cov["traces_validated_against_impl"] += nok
+    ctx.cov["evaluations"] += len(behs)
+    ctx.cov["distinct_nontrivial"] += nre
+    ctx.cov["label_history_events"] = nev
+    ctx.cov["label_histories_relookup_after_error"] = nre
+    ctx.sample({"label_history_head": behs[0][:6]})
+
+
 def selftest(ctx):
     """anti-vacuity: the scanner must flag a planted client literal / label."""
     reset = {"listeners": ["192.0.2.2:9001"], "clients": ["203.0.113.77:54321", "[2001:db8::77]:54322"], "labels": [["AA", "1", "o"]],
@@ -253,6 +388,7 @@ def run(ctx):
     selftest(ctx)
     nrows, ncalls = table_binding(ctx)
     nscan = exposure(ctx)
+    label_histories(ctx)
     process_exposure(ctx)
     vlib.write_evidence(ctx, "model_checking",
                         "TLC enumerates the complete decision table of LocationLabel.tla (states/transitions); every row "
@@ -281,6 +417,9 @@ def replay(ctx, path):
         for v in res["viols"][:1]:
             e = events[v["line"] - 1]
             ctx.violation(d["signature"], "reproduced: %s labelled %r (%s)" % (e["addr"], e["raw"], v["kind"]), rp)
+    elif rp.get("kind") == "labelhist":
+        rows = lh_run(ctx, [rp["behaviour"]], tag="replay")
+        lh_judge(ctx, [rp["behaviour"]], rows, "replay")
     else:
         rc, out, rows = T.run_overlay(ctx, [rp["behaviour"]], db="fake" if rp.get("db") else "nil", tag="replay")
         err = T.overlay_failed(rc, out, rows)
